@@ -116,7 +116,8 @@ def check_scalars(st):
         st.execution(None, outcome=('int',), root=('int', v), nontrivial=('int', v))
         if enc != struct.pack('>I', v) or ReadBuf(enc).read_int() != v:
             st.violation('int-roundtrip', {'v': v})
-    names = ['', 'a', 'aes256-ctr', 'x@y.z', 'naïve', 'gss-group14-sha256-a+b/c0==']
+    # names are opaque between the commas: blanks, tabs, line ends and other white space at their edges (or making up the whole name) belong to them
+    names = ['', 'a', 'aes256-ctr', 'x@y.z', 'naïve', 'gss-group14-sha256-a+b/c0==', ' a', 'a ', '\tb', 'b\n', '\u00a0c', ' ', 'a b', 'c\r', '\u2003d', '\x1ce', 'f\x85']
     for k in range(0, 4):
         for lst in itertools.product(names, repeat=k):
             lst = list(lst)
@@ -148,7 +149,7 @@ def check_scalars(st):
 
 
 def check_messages(st):
-    alpha = [[], ['a'], ['curve25519-sha256', 'x@y'], ['naïve'], ['gss-gex-sha1-dZuIebMjgUqaxvbF7hDbAw==', 'b']]
+    alpha = [[], ['a'], ['curve25519-sha256', 'x@y'], ['naïve'], ['gss-gex-sha1-dZuIebMjgUqaxvbF7hDbAw==', 'b'], ['a', ' b', 'c ', '\td']]
     for kex, key, enc, mac in itertools.product(alpha, repeat=4):
         for follows, unused in ((False, 0), (True, 0xffffffff)):
             cli = SSH2_KexParty(enc or [''], mac or [''], ['none'], [''])
